@@ -13,7 +13,7 @@
 // Online oracle: the delivered (type, payload) sequence is always a prefix of the sent sequence and complete at the end;
 // no transport error; both session ids equal. Tampering: a recorded V2 stream with one flipped bit is fed (again randomly
 // fragmented) to a fresh receiver built from the same key material: it must deliver a strict prefix of the genuine messages
-// (never a different message, never all of them). V1: flipped payload / checksum byte => exactly that message is reported
+// (never a different message) and must notice: ReceivedBytes fails, or not all messages are delivered. V1: flipped payload / checksum byte => exactly that message is reported
 // with reject_message, the others are delivered unchanged; flipped magic byte / size above the limit => ReceivedBytes fails.
 //
 // Offline oracle (checks/C32.py + pyref/bip324ref.py): the wire bytes of every V2 endpoint are recomputed with the vendored
@@ -108,9 +108,10 @@ struct Got {
 };
 std::string GotJson(const Got& g) { return vh::J().str("t", g.type).u("n", g.n).str("h", g.sha).b("rej", g.rej).done(); }
 
-std::string RandType(vh::Rng& rng)
+std::string RandType(vh::Rng& rng, bool allow_empty)
 {
-    const auto cls = rng.below(20);
+    auto cls = rng.below(20);
+    if (cls == 14 && !allow_empty) cls = 15;
     if (cls < 11) return rng.pick(SHORT).second;
     if (cls < 14) return LONGKNOWN[rng.below(std::size(LONGKNOWN))];
     if (cls == 14) return "";
@@ -119,10 +120,10 @@ std::string RandType(vh::Rng& rng)
     for (size_t i = 0; i < len; ++i) s += static_cast<char>(0x21 + rng.below(0x7E - 0x21 + 1));
     return s;
 }
-Msg RandMsg(vh::Rng& rng, size_t big)
+Msg RandMsg(vh::Rng& rng, size_t big, bool allow_empty = false)
 {
     Msg m;
-    m.type = RandType(rng);
+    m.type = RandType(rng, allow_empty);
     const auto cls = rng.below(100);
     if (big) m.n = big;
     else if (cls < 15) m.n = 0;
@@ -310,7 +311,8 @@ VH_CMD(transport)
             if (rng.chance(1, 10)) n = 0;
             if (first_version && n == 0) n = 1;
             for (size_t i = 0; i < n; ++i) {
-                Msg m = RandMsg(rng, 0);
+                // the empty message type only exists in v1 (BIP324 has no encoding for it; V2Transport would map it to the unassigned short id 29)
+                Msg m = RandMsg(rng, 0, /*allow_empty=*/kind == "v1v1");
                 if (rekey && m.n > 200) m.n = rng.below(200), m.pat.resize(std::min<size_t>(m.pat.size(), std::max<size_t>(m.n, 1)));
                 if (m.n == 0) m.pat.clear();
                 if (i == 0 && first_version) m.type = "version";
@@ -333,6 +335,13 @@ VH_CMD(transport)
                 gen_msgs(e.tosend, /*first_version=*/kind == "v1v2" && s == 0);
             }
             if (kind == "v1v2") E[1].fallback = true;
+            {
+                // byte-at-a-time scheduling only for sessions that move few bytes (every step costs several transport calls)
+                size_t total = 0;
+                for (int s = 0; s < 2; ++s)
+                    for (const auto& m : E[s].tosend) total += m.n + 24;
+                if (mode == Mode::TINY && total > 6000) mode = Mode::MIXED;
+            }
             if (bigcase) {
                 const size_t sizes[] = {4000000, 3999999, 1000000 + static_cast<size_t>(rng.below(2000000))};
                 Msg m = RandMsg(rng, sizes[rng.below(3)]);
@@ -347,12 +356,14 @@ VH_CMD(transport)
                     violation("transport-stalled", "the two transports did not finish exchanging their messages", vh::J().u("steps", steps).str("kind", kind));
                     break;
                 }
-                bool idle = true;
-                for (int s = 0; s < 2; ++s) {
-                    const auto& [bytes, more, type] = E[s].t->GetBytesToSend(false);
-                    if (!E[s].tosend.empty() || !bytes.empty() || E[s].inflight < E[s].wire.size() || E[s].t->ReceivedMessageComplete()) idle = false;
+                if (steps % 16 == 0 && E[0].tosend.empty() && E[1].tosend.empty() && E[0].inflight == E[0].wire.size() && E[1].inflight == E[1].wire.size()) {
+                    bool idle = true;
+                    for (int s = 0; s < 2; ++s) {
+                        const auto& [bytes, more, type] = E[s].t->GetBytesToSend(false);
+                        if (!bytes.empty() || E[s].t->ReceivedMessageComplete()) idle = false;
+                    }
+                    if (idle) break;
                 }
-                if (idle) break;
                 const int s = static_cast<int>(rng.below(2));
                 End& e = E[s];
                 End& peer = E[1 - s];
@@ -452,6 +463,7 @@ VH_CMD(transport)
                     Pull(T, rng, mode, fs);
                 }
             };
+            if (mode == Mode::TINY && rekey) mode = Mode::MIXED;
             if (!T.init) feed_all(); // the responder only starts once it has seen (non-v1) bytes
             pull_all();
             if (T.wire.size() < 64) {
@@ -605,7 +617,8 @@ VH_CMD(transport)
                     const bool ok = Feed(*fresh, s2, rng, m2, got, nullptr);
                     bool prefix = got.size() <= genuine.size();
                     for (size_t g = 0; prefix && g < got.size(); ++g) prefix = SameMsg(got[g], genuine[g]);
-                    const bool strict = got.size() < genuine.size();
+                    // detected = an error was reported, or the receiver is still waiting (not everything was delivered)
+                    const bool strict = got.size() < genuine.size() || !ok;
                     if (!prefix) violation("tampered-stream-delivered-different-message", "a v2 stream with one flipped bit made the receiver deliver a message that was not sent", vh::J().str("kind", kind).u("pos", pos).i("bit", bit).u("delivered", got.size()));
                     else if (!strict) violation("tampered-stream-fully-delivered", "a v2 stream with one flipped bit was delivered completely without an error", vh::J().str("kind", kind).u("pos", pos).i("bit", bit).u("delivered", got.size()).b("error_reported", !ok));
                     trials.push_back("[" + std::to_string(pos) + "," + std::to_string(bit) + "," + std::to_string(cls) + "," + (ok ? "0" : "1") + "," + std::to_string(got.size()) + "," + (prefix ? "1" : "0") + ",-1]");
